@@ -54,7 +54,7 @@ class ImageSampler(object):
 
 
 WIRE_GEN = dict(napps=2, nsides=3, steps=60, use_time=False, restarts=False, names=["x", "y", "ü", "007", " 7"], p_illegal=0.1,
-                bad_client_version=False)     # a handler failure drops the TCP connection with its ack unflushed: nothing to compare
+                bad_client_version=False, closings=False)     # (and the wire runner has no half-closed state) a handler failure drops the TCP connection with its ack unflushed: nothing to compare
 
 
 def run_wire_job(job, acc):
